@@ -55,8 +55,11 @@ def random_op(st, rng: random.Random, *, D, typed=False, kinds=(0,), xids=(0,), 
             v = rng.random()
             if v < 0.6 or not live:
                 p = rng.choice(parents)
-                return {"name": "add_child", "p": p, "d": d, "xid": rng.choice(list(xids)), "k": rng.choice(list(kinds)),
-                        "pos": random_pos(st, p, rng)}
+                op = {"name": "add_child", "p": p, "d": d, "xid": rng.choice(list(xids)), "k": rng.choice(list(kinds)),
+                      "pos": random_pos(st, p, rng)}
+                if rng.random() < 0.15:
+                    op["nid"] = 1      # the caller chooses the node_id
+                return op
             if v < 0.8:
                 return {"name": rng.choice(["append_child", "prepend_child"]), "p": rng.choice(live), "d": d, "xid": 0,
                         "k": rng.choice(list(kinds))}
